@@ -181,6 +181,8 @@ def cmdReg : P String := do
   let vendor ← bytes; let product ← bytes; let version ← bytes; let url ← bytes
   let ops ← listOf regOpP
   expect "|"
+  -- the service's white-box connection count failed to reach the value the history implies at some point
+  let counterOff ← bool
   let nreg := (ops.filter (fun o => match o with | .register _ _ => true | _ => false)).length
   -- walk the history: registrations report their result, queries are compared with the state then
   let rec walk (s : RegState) : List ROpTok → P (RegState × List String × List String × Option String)
@@ -224,6 +226,8 @@ def cmdReg : P String := do
   let (sf, expRes) := (sfW, expResW)
   let refused := expRes.any (· != "ok")
   let feats := s!"nt={if refused then 1 else 0} ops={ops.length} regs={nreg} accepted={sf.reg.ifaces.length} asked={asked.length}"
+  let fin (ok : String) : String :=
+    if counterOff then s!"DIFF C14 active-connection-count-never-reached-the-value-the-history-implies {feats}" else ok
   if expRes != obsRes then return s!"DIFF C13 register-results model={expRes} observed={obsRes} {feats}"
   match midBad with
   | some why => return s!"DIFF C13 {why} {feats}"
@@ -263,13 +267,13 @@ def cmdReg : P String := do
       | none => return s!"DIFF C13 resolver-json-unparsable {feats}"
       | some v =>
         match decodeInfo (some v) with
-        | none => if rok then return s!"DIFF C13 resolver-accepted-undecodable {feats}" else return s!"OK resolver=undecodable {feats}"
+        | none => if rok then return s!"DIFF C13 resolver-accepted-undecodable {feats}" else return fin s!"OK resolver=undecodable {feats}"
         | some inf2 =>
           if !rok then return s!"DIFF C13 resolver-getinfo-failed {feats}"
           if !infoBeq inf2 rv rp rver ru ri then return s!"DIFF C13 resolver-values-differ {feats}"
           if !resolveOk then return s!"DIFF C13 resolver-resolve-failed {feats}"
-          return s!"OK resolver=1 {feats}"
-    return s!"OK resolver=0 {feats}"
+          return fin s!"OK resolver=1 {feats}"
+    return fin s!"OK resolver=0 {feats}"
 
 /-! ## C11: `client <flags> <method> <ptok> <pjson> <nsegs> {seg} <nrecv> | <sendclass> <written> <k> {kind flags params name}` -/
 
@@ -289,7 +293,9 @@ def recvAgrees (m : RecvResult) (o : RecvObs) : Bool :=
   | .decodeError => o.kind == "decode"
   | .reply p c =>
     -- `receive` leaves the caller's value alone when there are no parameters
-    o.kind == "reply" && o.flags == (if c then flagContinues else 0) && optJValBeq p pv
+    (o.kind == "reply" && o.flags == (if c then flagContinues else 0) && optJValBeq p pv)
+      -- `Connection.Call` with a nil out value: the reply was received, its parameters were not asked for
+      || (o.kind == "reply-nilout" && !c)
   | .remoteError n p => o.kind == "remote" && o.name == n && optJValBeq p pv
   | .stdError (.interfaceNotFound i) => o.kind == "std-i" && o.name == i
   | .stdError (.methodNotFound i) => o.kind == "std-m" && o.name == i
@@ -681,6 +687,18 @@ def cmdGone : P String := do
   if !servingEnded then return s!"DIFF C10 serving-call-after-shutdown-hang {feats}"
   return s!"OK {feats}"
 
+/-! ## C17: `connctx <ending> | <live> <cancelled>` — the handler's context is the connection's -/
+
+def cmdConnCtx : P String := do
+  let ending ← tok
+  expect "|"
+  let live ← bool
+  let cancelled ← bool
+  let feats := s!"nt=1 ending={ending}"
+  if !live then return s!"DIFF C17 handler-context-cancelled-while-its-connection-is-alive {feats}"
+  if !cancelled then return s!"DIFF C17 handler-context-not-cancelled-after-its-connection-ended {feats}"
+  return s!"OK {feats}"
+
 /-! ## C02 send side under concurrency: `bigframes <conns> <calls> <procs> | <bad> <first>` (oracle evaluated in the harness) -/
 
 def cmdBigFrames : P String := do
@@ -748,6 +766,6 @@ def cmdJsonStruct : P String := do
         return s!"DIFF JSON struct-reply-fields-differ {feats}"
       return s!"OK {feats}"
 
-def table : List (String × P String) := [("act", cmdAct), ("atoi", cmdAtoi), ("addr", cmdAddr), ("reg", cmdReg), ("client", cmdClient), ("e2e", cmdE2e), ("abort", cmdAbort), ("connr", cmdConnR), ("jsonself", cmdJsonSelf), ("upgrade", cmdUpgrade), ("upgradebig", cmdUpgradeBig), ("scale", cmdScale), ("gone", cmdGone), ("bigframes", cmdBigFrames), ("ctxsplit", cmdCtxSplit), ("jsonstruct", cmdJsonStruct)]
+def table : List (String × P String) := [("act", cmdAct), ("atoi", cmdAtoi), ("addr", cmdAddr), ("reg", cmdReg), ("client", cmdClient), ("e2e", cmdE2e), ("abort", cmdAbort), ("connr", cmdConnR), ("jsonself", cmdJsonSelf), ("upgrade", cmdUpgrade), ("upgradebig", cmdUpgradeBig), ("scale", cmdScale), ("gone", cmdGone), ("connctx", cmdConnCtx), ("bigframes", cmdBigFrames), ("ctxsplit", cmdCtxSplit), ("jsonstruct", cmdJsonStruct)]
 
 end Driver.Misc
